@@ -121,6 +121,10 @@ CMR_ERROR computePivots(
       goto cleanup;
     }
 
+    /* Entries are only reduced when the result is extracted, so the aggregated pivot value may be a non-canonical
+     * representative (e.g., 2 instead of -1), but the sign handling below compares it with -1. */
+    pivotValue = moduloTernary(pivotValue, characteristic);
+
     /* Compute all rows that are affected. */
     head = &listmat->columnElements[pivotColumn].head;
     numAffectedRows = 0;
